@@ -16,7 +16,7 @@ RULE = ('case = 2-3 requests (kinds of vlib/site.py: cookie+header+status from r
         'body, oversized body, handler crash, raised response with cookie, multipart form echo, generator body, cookie-then-abort; debug off or on) served on ONE '
         'fresh application, each on its own thread under a deterministic scheduler (vlib/sched.py: every line event inside the ombott package and the handler '
         'module is a yield point; exactly one thread holds the baton; a schedule is a list of [thread, steps]). Schedules: for a fixed set of ordered scenario pairs '
-        'EVERY single-preemption schedule (run A for k steps, run B to completion, finish A; all k) exhaustively, plus Hypothesis-generated schedules of 2-40 '
+        'EVERY single-preemption schedule (run A for k steps, run B to completion, finish A; all k) exhaustively, for four same-kind pairs also the two-preemption schedules (A k steps, B m steps, A to the end, B to the end) on a stride, plus Hypothesis-generated schedules of 2-40 '
         'segments over 2-3 threads (opcode granularity for a fraction in thorough). Oracle: the complete response of each thread (status line, header multiset, '
         'body) == the response of the same request served alone on a fresh application; in-handler probes (request.environ identity, path, query string, cookie, '
         'response header / cookie written earlier in the same handler) always show the own request of the thread. Non-trivial = at least one switch away from a thread '
@@ -140,7 +140,8 @@ PAIRS = [('ok', 'ok'), ('ok', 'crash'), ('badjson', 'badjson'), ('form', 'ok'), 
          ('rex', 'rex'), ('expires', 'expires'), ('typed', 'typed'), ('signed', 'signed'), ('status_str', 'status_int'), ('urlinfo', 'auth'), ('longpath', 'ok'),
          ('raised', 'raised'), ('gen', 'gen'), ('head_ok', 'ok'), ('badjson', 'badmultipart'), ('badmultipart', 'badjson'), ('oversized', 'bigform'), ('bigform', 'oversized'),
          ('badchunk', 'badchunk'), ('notfound_json', 'crash'), ('chunked_ok', 'chunked_ok'), ('header_case', 'ok'), ('header_case', 'header_case'), ('notmodified', 'ok'),
-         ('nocontent', 'ok'), ('inject_arg', 'ok'), ('ok', 'notmodified'), ('chunked_ok', 'badchunk')]
+         ('nocontent', 'ok'), ('inject_arg', 'ok'), ('ok', 'notmodified'), ('chunked_ok', 'badchunk'), ('form_fixed', 'form_fixed'), ('ok', 'resp_copy'),
+         ('expires', 'resp_copy'), ('sess_mutate', 'sess_mutate'), ('form_fixed', 'form')]
 
 def _reqs():
     anyk = st.lists(st.tuples(st.sampled_from(S.KINDS), st.integers(0, 30)).map(list), min_size=2, max_size=3)
@@ -148,6 +149,8 @@ def _reqs():
     same = st.tuples(st.sampled_from(S.KINDS), st.lists(st.integers(0, 30), min_size=2, max_size=3, unique=True)).map(lambda t: [[t[0], n] for n in t[1]])
     return st.one_of(anyk, same)
 
+
+PAIRS2 = [('form_fixed', 'form_fixed'), ('chunked_ok', 'chunked_ok'), ('rex', 'rex'), ('expires', 'expires')]
 
 CASE = st.fixed_dictionaries({
     'reqs': _reqs(),
@@ -177,6 +180,19 @@ def run(ctx):
                 ctx.guarded(check_case, dict(base, schedule=[[0, k], [1, BIG], [0, BIG]]))
             ctx.count('bound1_scenarios')
             ctx.count('bound1_schedules', ya // stride + 1)
+    # two-preemption schedules (A runs k steps, B runs m steps, A finishes, B finishes) for pairs that meet in shared code, on a stride
+    stride2 = 9 if ctx.tier == 'quick' else 3
+    for pi, (a, b) in enumerate(PAIRS2):
+        if pi % max(1, ctx.nshards) != ctx.shard % max(1, ctx.nshards):
+            continue
+        base = {'reqs': [[a, 1], [b, 2]], 'debug': False}
+        ya = run_case(ctx, dict(base, schedule=[[0, BIG]]), count_only=True)[0]
+        yb = run_case(ctx, dict(base, schedule=[[1, BIG]]), count_only=True)[1]
+        for k in range(1, ya, stride2):
+            for m in range(1, yb, stride2):
+                ctx.guarded(check_case, dict(base, schedule=[[0, k], [1, m], [0, BIG], [1, BIG]]))
+        ctx.count('bound2_scenarios')
+        ctx.count('bound2_schedules', len(range(1, ya, stride2)) * len(range(1, yb, stride2)))
     n = 250 if ctx.tier == 'quick' else 4000
     ctx.hyp(CASE, check_case, n, shrink=(ctx.tier == 'thorough'))
     if ctx.tier == 'thorough':
